@@ -501,3 +501,37 @@ update_orbits = FunctionContract(
             ("del orbits[second]", "del orbits[first]")],
 )
 CONTRACTS.append(update_orbits)
+
+
+# ------------------------------------------------------------------ intersect: what all sets of a collection have in common
+def setup_int(cx):
+    from pyvc.builtins import make_iter, _int
+    coll = cx.val('SETS', TSeq(TSet(TInt)))
+    cx.spec_env['SETS'] = coll
+    inter_f = Obj('set.intersection')
+
+    def reduce_(e, f, xs, init):
+        # functools.reduce(set.intersection, xs, init) by its contract: the elements of init that are in every set of xs
+        e.oblige(f is inter_f, 'folded:with-set-intersection')
+        it = make_iter(e, xs)
+        st = TSet(TInt)
+        r = e.fresh_val(st, 'reduced')
+        x, k = z3.Int('rx'), z3.Int('rk')
+        ie = to_z3(init, st)
+        e.assume(z3.ForAll([x], z3.Select(r.e, x) == z3.And(z3.Select(ie, x), z3.ForAll([k], z3.Implies(z3.And(0 <= k, k < _int(it.n)),
+                                                                                                        z3.Select(to_z3(it.get(k), st), x))))))
+        return r
+    cx.spec_env['reduce'] = Builtin(reduce_, 'reduce')
+    cx.spec_env['set'] = Obj('set', intersection=inter_f, __call__=Builtin(lambda e, x=None: x, 'set()'))
+    cx.spec_env['type'] = Builtin(lambda e, x: Builtin(lambda e2, y: y, 'type(first)()'), 'type')       # set or frozenset: the same elements
+    return dict(collection_of_sets=coll)
+
+
+intersect_c = FunctionContract(
+    F, 'intersect', 'C06', setup=setup_int, result_ty=TSet(TInt),
+    ensures=["forall(lambda x: (x in result) == forall(lambda k: implies(0 <= k and k < len(SETS), x in SETS[k])))"],
+    raises={'IndexError': ["len(SETS) == 0"]},
+    canary=[("out = reduce(set.intersection, collection_of_sets, set(first))", "out = reduce(set.intersection, collection_of_sets[1:], set(first))"),
+            ("out = reduce(set.intersection, collection_of_sets, set(first))", "out = set(first)")],
+)
+CONTRACTS.append(intersect_c)
